@@ -19,7 +19,7 @@ def run(rep):
         fw.standin(rep, 's_c04.py', ['run', rep.seed, 200 if q else 3000],
                    'two engines: histories x interleavings (incl. next() on suspended queries, two threads) vs each engine alone',
                    'histories of <= 6 operations per engine')
-    fw.standin(rep, 's_share.py', ['run', rep.seed, 600],
+    fw.standin(rep, 's_share.py', ['run', rep.seed, 760],
                'two simultaneously suspended uses of one non-ground fact (all interleavings) vs each use alone; compiled conjunction',
                '9 fact shapes x 9 constant choices x 5 schedules: exhaustive for this family')
     rep.assumptions += [A['A-PY-ATTR'], 'thread schedules are not modelled (CPython bytecode atomicity): the thread clause rests on the frame '
